@@ -60,10 +60,11 @@ REG = {
         "level_note": "Domain restrictions derived from the parsers: strings are ASCII/GB2312 without NUL at either end, attachment file names non-empty, string parameters non-empty (a zero-length parameter is not re-emitted by the encoder), count/length fields equal to their lists, bodies <= 1023 bytes. Derived flag structs are compared in C08, not here.",
         "rule": "one rapid generator per two-way type (type drawn uniformly); non-trivial = value has >= 2 list elements, or non-ASCII text, or a non-default dialect, or a 2019 header",
         "assumptions": ["comparison ignores derived fields (AlarmSignDetails/StatusSignDetails) and func fields; nil and empty lists are identified"],
-        "required_buckets": {"any": ["P0x9212:list>=3", "P0x8800:list0", "P0x8103", "T0x1210:dialect2", "P0x9208:dialect5", "T0x0100", "T0x0704:list>=3", "util_gbk", "util_time"]},
+        "required_buckets": {"any": ["P0x9212:list>=3", "P0x8800:list0", "P0x8103", "T0x1210:dialect2", "P0x9208:dialect5", "T0x0100", "T0x0704:list>=3", "util_gbk", "util_time", "concurrent_round_trips"]},
         "parts": [
             rapid("pure", "TestC07", 30000, 400000),
             rapid("pure", "TestC07Utils", 10000, 100000, qs=2, ts=4),
+            rapid("pure", "TestC07Concurrent", 400, 6000, qs=4, ts=8),
         ],
     },
     "C16": {
@@ -128,7 +129,7 @@ REG = {
         "level_note": "Uses service.NewVerifExtractor (hook, tag verif) which calls packageParse.parse unchanged. The reader goroutine's own loop is exercised by the socket-level checks (C06/C09).",
         "rule": "frames and cut positions drawn by rapid (6 cut modes); non-trivial = at least 2 frames and at least one cut strictly inside a frame",
         "assumptions": ["reference frame builder harness/ref/frame.go"],
-        "required_buckets": {"any": ["cut_inside_frame", "cut_in_escape_pair", "cut_before_delimiter", "fast_path_read", "frame_longer_than_1023", "reused_buffer", "single_read"]},
+        "required_buckets": {"any": ["cut_inside_frame", "cut_in_escape_pair", "cut_before_delimiter", "fast_path_read", "frame_longer_than_1023", "reused_buffer", "single_read", "socket_stream", "after_a_connection_that_ended_mid_frame"]},
         "parts": [
             rapid("ext", "TestC04", 6000, 60000),
             enum("ext", "TestC04Enum", 8, 16),
@@ -142,7 +143,7 @@ REG = {
         "level_note": "Extractor level through the hook; the socket-level path (one reply per completed transfer, callbacks) is C06's. Packet bodies are non-empty as the property states.",
         "rule": "rapid histories; non-trivial = (N >= 3 and some packet arrives out of ascending order) or a duplicate or an impossible packet is present",
         "assumptions": ["reference model in ext/c05_test.go (reasm) written from the property statement"],
-        "required_buckets": {"any": ["duplicates", "impossible_packet", "out_of_order", "two_transfers", "reused_buffer", "cuts_per_frame", "cuts_all_in_one", "cuts_random", "N_>=3"]},
+        "required_buckets": {"any": ["duplicates", "impossible_packet", "out_of_order", "two_transfers", "reused_buffer", "cuts_per_frame", "cuts_all_in_one", "cuts_random", "N_>=3", "transfer_restarted"]},
         "parts": [
             rapid("ext", "TestC05", 10000, 100000),
             enum("ext", "TestC05Enum", 1, 1),
@@ -155,7 +156,7 @@ REG = {
         "level_note": "Socket level (TestC09Socket): a live server in a child process; read callbacks keep every *Message (optionally handing it to another goroutine, optionally sleeping up to 2 ms while the next frames arrive); at the end of the scenario - after all later traffic and after the connection closed - every kept message is compared with its delivery-time snapshot inside the child, and the replies must be the C06 replies of their own requests.",
         "rule": "rapid histories as in C04/C05 plus 1..4 later frames; non-trivial = at least two reads follow the first delivery",
         "assumptions": [],
-        "required_buckets": {"any": ["plain", "fragmented", "cleanup", "handoff", "hold_2000us", "sub_packaged"]},
+        "required_buckets": {"any": ["plain", "fragmented", "cleanup", "handoff", "hold_2000us", "sub_packaged", "transfer_incomplete_at_close"]},
         "parts": [
             rapid("ext", "TestC09Extractor", 8000, 80000),
             rapid("sys", "TestC09Socket", 60, 800, qs=12, ts=16),
@@ -168,10 +169,11 @@ REG = {
         "level_note": "Advance(d) subtracts d from the recorded create/update times, which is equivalent to the wall clock moving forward because the code only compares time.Now() with those fields. Decision points closer than 0.4 s to a deadline are excluded by construction (and counted if they occur). Ambiguous readings are avoided by construction: after an advance the next inbound data is never a packet of a pending transfer.",
         "rule": "rapid timelines driven by the same model the oracle uses; non-trivial = some re-request names >= 2 missing packets and an advance crosses 5 s",
         "assumptions": ["virtual clock hook is a faithful stand-in for wall-clock time (validated by the real-clock scenario in the thorough tier of the socket engine)"],
-        "required_buckets": {"any": ["advance_crosses_5s", "advance_crosses_60s", "missing>=2", "rounds>=2", "two_transfers", "N>=10", "transfer_restarted"]},
+        "required_buckets": {"any": ["advance_crosses_5s", "advance_crosses_60s", "missing>=2", "rounds>=2", "two_transfers", "N>=10", "transfer_restarted", "socket_many_stalled_transfers"]},
         "parts": [
             rapid("ext", "TestC14", 10000, 100000),
             enum("ext", "TestC14Enum", 4, 16),
+            enum("sys", "TestC14Socket", 1, 1, timeout={"quick": 300, "thorough": 300}),
             enum("sys", "TestC14RealClock", 1, 1, tiers=["thorough"], timeout={"thorough": 900}),
         ],
     },
@@ -182,7 +184,7 @@ REG = {
         "level_note": "Uses attachment.VerifServeConn (hook, tag verif): same connection object and run loop as GoJT808.Run builds; net.Pipe gives exact control of read boundaries. Names are non-empty, NUL-free at the edges, <= 50 bytes and distinct; the client waits (bounded) for the replies before hanging up, as a terminal does.",
         "rule": "rapid scripts; non-trivial = (>= 2 files or >= 3 chunks) and (chunks out of ascending order or a coalescing/random write partition)",
         "assumptions": ["reference builders harness/ref/upload.go"],
-        "required_buckets": {"any": ["dialect1", "dialect2", "dialect3", "dialect4", "dialect5", "marker_in_metadata", "resent_chunk", "chunks_out_of_order", "files>=2", "cuts_control_plus_next", "cuts_coalesce_all", "cuts_random", "cuts_per_item"]},
+        "required_buckets": {"any": ["dialect1", "dialect2", "dialect3", "dialect4", "dialect5", "marker_in_metadata", "resent_chunk", "chunks_out_of_order", "files>=2", "cuts_control_plus_next", "cuts_coalesce_all", "cuts_random", "cuts_per_item", "announced_twice"]},
         "parts": [
             rapid("ext", "TestC15", 1500, 15000),
         ],
@@ -194,7 +196,7 @@ REG = {
         "level_note": "The test process chdirs into the sandbox (one process per shard). file.log in the working directory is the handler's own log and is allowed. Rejecting or sanitising a name both pass.",
         "rule": "rapid names from a fragment grammar; non-trivial = the name contains a separator or a '..' component",
         "assumptions": [],
-        "required_buckets": {"any": ["name_with_separator_or_dotdot", "files_stored", "end_eof", "end_garbage_frame", "end_unknown_command", "end_bad_checksum"]},
+        "required_buckets": {"any": ["name_with_separator_or_dotdot", "files_stored", "end_eof", "end_garbage_frame", "end_unknown_command", "end_bad_checksum", "overlapping_sessions"]},
         "parts": [
             rapid("ext", "TestC19", 600, 8000),
         ],
@@ -206,7 +208,7 @@ REG = {
         "level_note": "In-process parts treat a panic inside the connection loop as a process crash because service.go / attachment/service.go start connections with `go` and no recover. What happens to the attacker's own connection is free.",
         "rule": "rapid attack streams from 8 attack classes x write partitions; non-trivial = the stream got past framing (at least one frame/event accepted) or a lifecycle fault at a non-trivial point",
         "assumptions": [],
-        "required_buckets": {"any": ["connect_and_close", "closed_mid_stream", "hostile_chunk_header", "hostile_control_frame", "default_file_handler", "custom_file_handler", "hostile_package_numbers", "frames_accepted", "connection_closed_on_error", "unsupported_id", "attack_connect_and_close", "attack_hostile_package_numbers", "attack_half_frame", "close_rst", "attack_frames_accepted", "handlers_parse_all"]},
+        "required_buckets": {"any": ["connect_and_close", "closed_mid_stream", "hostile_chunk_header", "chunk_header_cut_short", "hostile_control_frame", "default_file_handler", "custom_file_handler", "hostile_package_numbers", "frames_accepted", "connection_closed_on_error", "unsupported_id", "attack_connect_and_close", "attack_hostile_package_numbers", "attack_half_frame", "close_rst", "attack_frames_accepted", "handlers_parse_all"]},
         "parts": [
             rapid("ext", "TestC10Attach", 1500, 15000),
             rapid("ext", "TestC10Extractor", 8000, 100000),
@@ -271,7 +273,7 @@ REG = {
         "level_note": "Leave processing after a client-side close is awaited by a 40 ms pause; verdicts that depend on it are soft evidence (re-run, 2 of 3). Interleavings are sampled, not enumerated.",
         "rule": "rapid histories of 6..30 macro steps; non-trivial = the history contains a refused duplicate and a successful re-join of a key",
         "assumptions": ["loopback TCP; child process per scenario"],
-        "required_buckets": {"any": ["refused_duplicate", "rejoin_after_leave", "concurrent_group"]},
+        "required_buckets": {"any": ["refused_duplicate", "rejoin_after_leave", "concurrent_group", "burst_of_six_commands"]},
         "parts": [
             rapid("sys", "TestC11", 40, 600, qs=12, ts=16),
         ],
@@ -283,11 +285,11 @@ REG = {
         "level_note": "Phones are decimal strings up to the field width (longer phones are outside the simulator's documented domain).",
         "rule": "rapid (version, phone, command sequence); non-trivial = phone shorter than the field (padding) or escaped template checksum, and >= 2 frames",
         "assumptions": ["reference frame codec"],
-        "required_buckets": {"any": ["version_1", "version_2", "version_3", "template_checksum_escaped", "phone_padded", "custom_body", "cmd_0100", "cmd_0102", "cmd_1212", "pipelined"]},
+        "required_buckets": {"any": ["version_1", "version_2", "version_3", "template_checksum_escaped", "phone_padded", "custom_body", "cmd_0100", "cmd_0102", "cmd_1212", "pipelined", "serial_wrap", "predictor_version_3"]},
         "parts": [
             rapid("pure", "TestC20", 8000, 80000),
             rapid("sys", "TestC20Live", 40, 500, qs=8, ts=16),
-            enum("pure", "TestC20Wrap", 3, 3, tiers=["thorough"]),
+            enum("pure", "TestC20Wrap", 3, 3),
         ],
     },
 }
